@@ -318,3 +318,86 @@ CLASSES[NODE].derived["stmt_ids"] = lambda ex, st, self: ex.read_field(st, self,
 CLASSES[NODE].views["stmt_ids"] = lambda o: [id(s) for s in o.statements]
 CLASSES[FEAFILE].derived["stmt_ids"] = lambda ex, st, self: ex.read_field(st, self, "statements")
 CLASSES[FEAFILE].views["stmt_ids"] = lambda o: [id(s) for s in o.statements]
+
+
+# ---- the PRE-state of the AST (for postconditions and loop invariants that quantify over nodes) --------------------------------
+# `old(e)` cannot mention a quantifier-bound variable and deep-copies object lists at run time, so the pre-state value of a field is
+# offered as a derived field `<field>0`: in the logic it reads the heap array of the pre-state (the executor's `old_state` while a
+# postcondition is evaluated, else the initial array `H0_<class>_<field>` of the function being verified); natively it reads the
+# snapshot that `snapshot()` stored on the real objects before the call.
+
+
+def pre_array(ex, cname, fname, ty):
+    arr = ex.old_state.heap.get((cname, fname)) if ex.old_state is not None else None
+    return arr if arr is not None else z3.Const(f"H0_{cname}_{fname}", z3.ArraySort(T.RefSort, ty.sort()))
+
+
+def pre_field(cname, fname, ty):
+    return lambda ex, st, self: Val(ty, z3.Select(pre_array(ex, cname, fname, ty), lift(self)))
+
+
+def _snap(attr):
+    return lambda o: P(getattr(o, "_c17_pre", {}).get(attr, getattr(o, attr, None)))
+
+
+def _walk(o, out):
+    for s in getattr(o, "statements", ()) or ():
+        if not any(s is x for x in out):
+            out.append(s)
+            _walk(s, out)
+    return out
+
+
+PRE_IDS = set()
+
+
+def snapshot(feaFile, extra=()):
+    """record the pre-state of a real feature file (call it in a Runtime `build`): statements of the file and of every block, names, texts,
+    feature tags; `extra` = further nodes handed to the function (generated blocks).  Returns feaFile."""
+    nodes = _walk(feaFile, []) + [x for x in extra if x is not None]
+    for x in list(nodes):
+        _walk(x, nodes)
+    PRE_IDS.clear()
+    PRE_IDS.update(id(x) for x in nodes)
+    PRE_IDS.add(id(feaFile))
+    for x in nodes + [feaFile]:
+        pre = {}
+        for a in ("statements", "name", "text"):
+            if hasattr(x, a):
+                v = getattr(x, a)
+                pre[a] = list(v) if isinstance(v, list) else v
+        x._c17_pre = pre
+    feaFile._c17_pre["featureTags"] = feature_tags(feaFile)
+    feaFile._c17_universe = list(nodes)
+    return feaFile
+
+
+# natively: a node is fresh when it was not part of the snapshot
+NATIVE_FRESH_SNAPSHOT = lambda x: id(raw(x)) not in PRE_IDS  # noqa: E731
+NATIVE_ALLOCATED = lambda x: True  # noqa: E731
+
+_NODES = List(Ref(NODE))
+CLASSES[NODE].derived["statements0"] = pre_field(NODE, "statements", _NODES)
+CLASSES[NODE].views["statements0"] = _snap("statements")
+CLASSES[FEAFILE].derived["statements0"] = pre_field(FEAFILE, "statements", _NODES)
+CLASSES[FEAFILE].views["statements0"] = _snap("statements")
+for _f in ("kind", "name", "text"):
+    CLASSES[NODE].derived[_f + "0"] = pre_field(NODE, _f, STR)
+CLASSES[NODE].views["kind0"] = lambda o: type(o).__name__
+CLASSES[NODE].views["name0"] = _snap("name")
+CLASSES[NODE].views["text0"] = _snap("text")
+
+
+def _feature_tags0(ex, st, self):
+    stm = z3.Select(pre_array(ex, FEAFILE, "statements", _NODES), lift(self))
+    kind = pre_array(ex, NODE, "kind", STR)
+    name = pre_array(ex, NODE, "name", STR)
+    f = z3.Function("c17_featureTags", stm.sort(), kind.sort(), name.sort(), Set(STR).sort())
+    return Val(Set(STR), f(stm, kind, name))
+
+
+CLASSES[FEAFILE].derived["featureTags0"] = _feature_tags0
+CLASSES[FEAFILE].views["featureTags0"] = lambda o: getattr(o, "_c17_pre", {}).get("featureTags", feature_tags(o))
+# every node reference (frame clauses quantify over it); natively: every node of the snapshot plus what is reachable now
+CLASSES[FEAFILE].derived["universe"] = lambda ex, st, self: Val(Set(Ref(NODE)), z3.K(T.RefSort, z3.BoolVal(True)))
+CLASSES[FEAFILE].views["universe"] = lambda o: [P(x) for x in _walk(o, list(getattr(o, "_c17_universe", ())))]
